@@ -123,6 +123,15 @@ func aggregateAllContainerResourceRequests(pod *v1.Pod) *Resource {
 	}
 
 	result.SetMaxResource(initContainerReqs)
+
+	// Like k8s.io/component-helpers/resource.PodRequests: node-allocatable resources (cpu, memory, hugepages...)
+	// that were allocated to the pod through DRA claims count towards its request.
+	if utilfeature.DefaultFeatureGate.Enabled(features.DRANodeAllocatableResources) {
+		for _, claimStatus := range pod.Status.NodeAllocatableResourceClaimStatuses {
+			result.Add(NewResource(claimStatus.Resources))
+		}
+	}
+
 	result.AddScalar(v1.ResourcePods, 1)
 
 	return result
